@@ -29,6 +29,7 @@ E
 JS=$OUT/$TAG.json; rm -f $JS
 J $JS candidate "$CAND"
 rm -rf $WT; git -C /repo worktree prune; git -C /repo worktree add -q --detach $WT HEAD || { res "worktree failed"; exit 2; }
+cp /repo/Cargo.lock $WT/Cargo.lock 2>/dev/null
 cleanup() { git -C /repo worktree remove --force $WT 2>/dev/null; rm -rf $WT; }
 trap cleanup EXIT
 # demo on pristine
@@ -57,6 +58,7 @@ if [ -n "$PROPS" ]; then
   MR=$OUT/repo-$TAG; MV=$OUT/verif-$TAG
   rm -rf $MR $MV; mkdir -p $MR $MV
   git -C /repo archive HEAD | tar -x -C $MR
+  cp /repo/Cargo.lock $MR/Cargo.lock 2>/dev/null
   ( cd $MR && patch -p1 -s < "$CAND/patch.diff" ) >> $LOG 2>&1
   rsync -a --exclude .git --exclude replays /verif/ $MV/
   mkdir -p $MV/replays
